@@ -206,6 +206,53 @@ def run(chk):
                 chk.violation('schedule-gen_cent' + ('-lightcone' if origin_ is not None else ''), f'gen_cent H={Hh} Nthread={Tt} origin={None if origin_ is None else origin_.tolist()}: {r["problem"]}', dict(H=Hh, T=Tt))
         except Exception as e:  # noqa
             chk.note(f'gen_cent schedule replay not available: {type(e).__name__}: {str(e)[:200]}')
+    # gen_sats: the same replay on the satellite pass (box and light-cone observers)
+    try:
+        from abacusnbody.hod.GRAND_HOD import gen_sats
+        import re as _re
+        for (Pn, Tt, origin_) in ([(8, 2, np.array([-3000.0, 10.0, 20.0])), (7, 3, None)] if chk.quick else [(8, 2, np.array([-3000.0, 10.0, 20.0])), (7, 3, None), (9, 4, np.array([-2500.0, -40.0, 7.0])), (5, 2, None)]):
+            rs = np.random.default_rng(chk.seed + Pn)
+            halos = hc2.make_halos(rs, 4)
+            parts = hc2.make_particles(rs, halos, Pn)
+            parts['prandoms'] = parts['prandoms'] * 0.3
+            L, E, Qd = tdict(dict(hc2.LRG, ic=1.0)), tdict(dict(hc2.ELG, ic=1.0)), tdict(dict(hc2.QSO, ic=1.0))
+            keepc = (np.arange(Pn) % 3).astype(np.int64)
+            sargs = lambda: (parts['ppos'].copy(), parts['pvel'].copy(), parts['phvel'].copy(), parts['phmass'].copy(), parts['phid'].copy(), parts['pweights'].copy(), parts['prandoms'].copy(),
+                             parts['pdeltac'].copy(), parts['pfenv'].copy(), parts['pshear'].copy(), True, parts['pranks'].copy(), parts['pranksv'].copy(), parts['pranksp'].copy(),
+                             parts['pranksr'].copy(), parts['pranksc'].copy(), L, E, Qd, True, 1.0 / hc2.VELZ2KMS, hc2.LBOX, 2.0e9, True, True, True, Tt, origin_, keepc.copy())
+            refs = gen_sats(*sargs())
+            refsv = [{k2: np.asarray(v2) for k2, v2 in d.items()} for d in refs]
+
+            def build_s(sc, hook):
+                def share(x, nm):
+                    if isinstance(x, np.ndarray) and not isinstance(x, sched.Shared):
+                        if _re.match(r'^(lrg|elg|qso)_', nm):
+                            x[...] = -7 if x.dtype.kind in 'iu' else np.nan
+                        return sched.Shared(x, nm, sc)
+                    return x
+
+                class PyDict:
+                    @staticmethod
+                    def empty(key_type=None, value_type=None):
+                        return {}
+                fn = sched.threaded_source(gen_sats, sc, share='*', overrides={'numba': NumbaStub(), 'Dict': PyDict})
+                fn.__globals__['__par'] = hook(sc.par)
+                fn.__globals__['__share'] = share
+                return lambda: fn(*sargs())
+
+            def check_s(res):
+                for i in range(len(refsv)):
+                    for k2 in refsv[i]:
+                        got = np.asarray(sched.unwrap(res[i][k2]))
+                        if got.shape != refsv[i][k2].shape or not np.allclose(got, refsv[i][k2], rtol=1e-12, atol=0, equal_nan=False):
+                            return f'output {i} column {k2} = {got.tolist()} differs from the compiled result {refsv[i][k2].tolist()}'
+                return None
+            r = sched.explore(build_s, check_s, max_schedules=8, seed=chk.seed, random_schedules=2)
+            nsch += r['schedules']
+            if r['problem']:
+                chk.violation('schedule-gen_sats' + ('-lightcone' if origin_ is not None else ''), f'gen_sats P={Pn} Nthread={Tt} origin={None if origin_ is None else origin_.tolist()}: {r["problem"]}', dict(P=Pn, T=Tt))
+    except Exception as e:  # noqa
+        chk.note(f'gen_sats schedule replay not available: {type(e).__name__}: {str(e)[:200]}')
     chk.part('schedule_replay', schedules=nsch)
     chk.add_cases(nrun + nfc + nsch, nontrivial=nontriv + nfc, traces=nrun + nfc + nsch)
     # ---- the parallel host lookup of particles (staging): identical to the serial lookup for every thread count, for particle host ids
